@@ -44,6 +44,8 @@ func init() {
 			"\tif b.ReadLen() == 0 {\n\t\treturn 0, io.EOF\n\t}\n", "\tif b.ri == 0 {\n\t\treturn 0, io.EOF\n\t}\n", "C09-R3"},
 		mutant{"Read exposes uncommitted bytes", "byte_buffer.go",
 			"\tn := copy(dst, b.data[b.si:b.ri])\n\tb.Consume(n)", "\tn := copy(dst, b.data[b.si:b.wi])\n\tb.Consume(n)", "C09-R3"},
+		mutant{"Discard skips the memmove when the read area is empty", "byte_buffer.go",
+			"\tcopy(b.data[slot.Index:], b.data[slot.Index+slot.Length:b.wi])\n\tb.si -= slot.Length", "\tif slot.Index+slot.Length < b.ri {\n\t\tcopy(b.data[slot.Index:], b.data[slot.Index+slot.Length:b.wi])\n\t}\n\tb.si -= slot.Length", "C09-R3"},
 		mutant{"Discard does not shift the read index", "byte_buffer.go",
 			"\tb.si -= slot.Length\n\tb.ri -= slot.Length\n\tb.wi -= slot.Length", "\tb.si -= slot.Length\n\tb.wi -= slot.Length", "C09-R3"},
 	)
@@ -467,11 +469,40 @@ func runC09(c *Ctx) {
 					good = false
 				}
 			}
+			// the memmove over the removed range runs on every path that shifts the cursors, up to the end of the buffer
+			moved := false
+			eachInstr(fn, func(in ssa.Instruction) {
+				call, ok := in.(*ssa.Call)
+				if !ok {
+					return
+				}
+				if b, ok := call.Call.Value.(*ssa.Builtin); !ok || b.Name() != "copy" {
+					return
+				}
+				src, ok := stripConv(call.Call.Args[1]).(*ssa.Slice)
+				if !ok || !loadOfField(src.X, dataF) || !loadOfField(src.High, wi) {
+					return
+				}
+				dom := true
+				for _, f := range spec.moved {
+					for _, a := range storesTo(fn, f) {
+						if !dominatesInstr(call, a.Instr) {
+							dom = false
+						}
+					}
+				}
+				if dom {
+					moved = true
+				}
+			})
+			if !moved {
+				good = false
+			}
 			var names []string
 			for _, f := range spec.moved {
 				names = append(names, f.Name())
 			}
-			c.check(good, fn, "shift", fn.Pos(), strings.Join(names, ", ")+" move down by the same amount", spec.name+" does not move "+strings.Join(names, ", ")+" down by one and the same amount: the regions overlap or a cursor points past the data after the memmove")
+			c.check(good, fn, "shift", fn.Pos(), strings.Join(names, ", ")+" move down by the same amount", spec.name+" does not move "+strings.Join(names, ", ")+" down by one and the same amount after copying data[..:wi] over the removed range on that same path: the regions overlap or a cursor points past the data after the memmove")
 		}
 	}
 }
